@@ -21,7 +21,10 @@ type IntV struct {
 }
 
 // FloatV: only concrete float constants are supported.
-type FloatV struct{ F float64 }
+type FloatV struct {
+	F  float64
+	Ns string // if set: the value is (Int term Ns)/1e9 (time.Duration.Seconds of a symbolic duration)
+}
 
 type BoolV struct{ T string } // "true"/"false" are literals
 
@@ -203,7 +206,7 @@ func zero(t types.Type) Value {
 		case u.Info()&types.IsString != 0:
 			return litStr("")
 		case u.Info()&types.IsFloat != 0:
-			return FloatV{0}
+			return FloatV{F: 0}
 		case u.Kind() == types.UnsafePointer:
 			return PtrV{}
 		case u.Kind() == types.UntypedNil:
